@@ -8,31 +8,36 @@ import BM.Gen.Unicode
 namespace BM.Spec
 open BM BM.Html
 
-def w (s : String) : List Bytes := (s.splitOn " ").map strBytes
+/-- split a byte string at single spaces (kernel-reducible, so vocabularies can be used in proofs) -/
+def splitSp : Bytes → Bytes → List Bytes
+  | [], cur => [cur.reverse]
+  | c :: cs, cur => if c == 32 then cur.reverse :: splitSp cs [] else splitSp cs (c :: cur)
+
+def w (b : Bytes) : List Bytes := splitSp b []
 
 /-! ### C04: the documented UGC vocabulary -/
 
-def ugcElements : List Bytes := w
-  ("article aside details figure section summary h1 h2 h3 h4 h5 h6 hgroup blockquote br div hr p span wbr " ++
-   "a map area img abbr acronym cite code dfn em figcaption mark s samp strong sub sup var q time " ++
-   "b i pre small strike tt u bdi bdo rp rt ruby del ins ol ul li dl dt dd " ++
-   "table caption col colgroup thead tr td th tbody tfoot meter progress")
+def ugcElements : List Bytes :=
+  w b!"article aside details figure section summary h1 h2 h3 h4 h5 h6 hgroup blockquote br div hr p span wbr" ++
+  w b!"a map area img abbr acronym cite code dfn em figcaption mark s samp strong sub sup var q time" ++
+  w b!"b i pre small strike tt u bdi bdo rp rt ruby del ins ol ul li dl dt dd" ++
+  w b!"table caption col colgroup thead tr td th tbody tfoot meter progress"
 
-def ugcGlobalAttrs : List Bytes := w "dir lang id title"
+def ugcGlobalAttrs : List Bytes := w b!"dir lang id title"
 
 /-- (attribute, elements) pairs of the documented UGC vocabulary -/
 def ugcAttrTable : List (Bytes × List Bytes) :=
-  [(b!"open", w "details"), (b!"cite", w "blockquote q del ins"), (b!"href", w "a area"),
-   (b!"name", w "map"), (b!"alt", w "area img"), (b!"coords", w "area"), (b!"rel", w "area a"),
-   (b!"shape", w "area"), (b!"usemap", w "img"), (b!"datetime", w "time del ins"),
-   (b!"dir", w "bdi bdo"), (b!"type", w "ol ul li"), (b!"value", w "li meter progress"),
-   (b!"height", w "table col colgroup td th img"), (b!"width", w "table col colgroup td th img"),
-   (b!"summary", w "table"), (b!"align", w "col colgroup thead tr td th tbody tfoot img"),
-   (b!"span", w "col colgroup"), (b!"valign", w "col colgroup thead tr td th tbody tfoot"),
-   (b!"abbr", w "td th"), (b!"colspan", w "td th"), (b!"rowspan", w "td th"), (b!"headers", w "td th"),
-   (b!"scope", w "td th"), (b!"nowrap", w "td th"),
-   (b!"min", w "meter"), (b!"max", w "meter progress"), (b!"low", w "meter"), (b!"high", w "meter"),
-   (b!"optimum", w "meter"), (b!"src", w "img")]
+  [(b!"open", w b!"details"), (b!"cite", w b!"blockquote q del ins"), (b!"href", w b!"a area"),
+   (b!"name", w b!"map"), (b!"alt", w b!"area img"), (b!"coords", w b!"area"), (b!"rel", w b!"area a"),
+   (b!"shape", w b!"area"), (b!"usemap", w b!"img"), (b!"datetime", w b!"time del ins"),
+   (b!"dir", w b!"bdi bdo"), (b!"type", w b!"ol ul li"), (b!"value", w b!"li meter progress"),
+   (b!"height", w b!"table col colgroup td th img"), (b!"width", w b!"table col colgroup td th img"),
+   (b!"summary", w b!"table"), (b!"align", w b!"col colgroup thead tr td th tbody tfoot img"),
+   (b!"span", w b!"col colgroup"), (b!"valign", w b!"col colgroup thead tr td th tbody tfoot"),
+   (b!"abbr", w b!"td th"), (b!"colspan", w b!"td th"), (b!"rowspan", w b!"td th"), (b!"headers", w b!"td th"),
+   (b!"scope", w b!"td th"), (b!"nowrap", w b!"td th"),
+   (b!"min", w b!"meter"), (b!"max", w b!"meter progress"), (b!"low", w b!"meter"), (b!"high", w b!"meter"),
+   (b!"optimum", w b!"meter"), (b!"src", w b!"img")]
 
 def ugcAttrOk (el k : Bytes) : Bool :=
   ugcGlobalAttrs.contains k ||
@@ -249,11 +254,11 @@ def matcherDocForm (name : String) (v : Bytes) : Option Bool :=
   let kw (l : List Bytes) : Bool := l.contains (lowerAscii v)
   let runes := decodeRunes v
   match name with
-  | "CellAlign" => some (kw (w "center justify left right char"))
-  | "CellVerticalAlign" => some (kw (w "baseline bottom middle top"))
-  | "Direction" => some (kw (w "rtl ltr"))
-  | "ImageAlign" => some (kw (w "left right top texttop middle absmiddle baseline bottom absbottom"))
-  | "ListType" => some (kw (w "circle disc square a i 1"))
+  | "CellAlign" => some (kw (w b!"center justify left right char"))
+  | "CellVerticalAlign" => some (kw (w b!"baseline bottom middle top"))
+  | "Direction" => some (kw (w b!"rtl ltr"))
+  | "ImageAlign" => some (kw (w b!"left right top texttop middle absmiddle baseline bottom absbottom"))
+  | "ListType" => some (kw (w b!"circle disc square a i 1"))
   | "Integer" => some (!v.isEmpty && v.all isDigit)
   | "NumberOrPercent" =>
     some (match digits1 v with
